@@ -182,7 +182,7 @@ def run_case(idx, rng, tier, ctx):
                 s2, i2 = evaluate(case, flags, wd, True, cnt)
                 if s2 in ('equal', 'same-text'):
                     attributed = hostile
-                    key = MECH[hostile].format(kind=kind) + ':' + coarse(cls)
+                    key = MECH[hostile].format(kind=kind)
                 elif s2 == 'orig_bad':
                     res['inconclusive'] = 'generator defect (hostile-free kernel): ' + i2['detail'][:300]
                 elif 'TIMEOUT' in (i2.get('detail') or '') or 'TIMEOUT' in (i2.get('new_err') or ''):
